@@ -49,11 +49,13 @@ PInitCfg(variant, retry) ==
 
 PInit == PInitCfg("plain", FALSE)
 
-PReset ==
-    /\ cfg' = [variant |-> "plain", retry |-> FALSE, burst |-> FALSE] /\ clk' = 0 /\ now' = 0 /\ pctx' = 0 /\ prt' = 0 /\ epoch' = 0
+PResetCfg(variant, retry) ==
+    /\ cfg' = [variant |-> variant, retry |-> retry, burst |-> FALSE] /\ clk' = 0 /\ now' = 0 /\ pctx' = 0 /\ prt' = 0 /\ epoch' = 0
     /\ inst' = <<>> /\ calls' = <<>> /\ snapw' = <<>> /\ chs' = <<>>
     /\ credit' = 0 /\ creditR' = 0 /\ needEnter' = 0 /\ ctxTouch' = 0 /\ status' = 0 /\ cbseen' = {} /\ boReset' = 0 /\ boStop' = 0
     /\ td' = FALSE /\ bad' = {}
+
+PReset == PResetCfg("plain", FALSE)
 
 Insts   == DOMAIN inst
 Active  == {i \in Insts : inst[i].act}
